@@ -11,7 +11,7 @@
     transport's answer) that the model accepts: [run v pol (init monitor preopen) tr = Some s].
     All theorems quantify over every such history, every policy and both initial flags. *)
 From Coq Require Import ZArith List Bool.
-From FV Require Import Base.Bytes Model.Lifecycle Proofs.LifecycleProofs.
+From FV Require Import Base.Bytes Model.Lifecycle Proofs.LifecycleProofs Proofs.LifecycleFramesProofs.
 Import ListNotations.
 Open Scope Z_scope.
 
@@ -76,6 +76,47 @@ Theorem c15_live_reader_while_open : forall pol m p tr s,
   is_open s = true -> live (loops s (gen s)).
 Proof. exact live_reader. Qed.
 Print Assumptions c15_live_reader_while_open.
+
+(** ** every cut point of every inbound stream *)
+
+(** for every byte stream and every way of cutting it into chunks that the read loop has consumed
+    without meeting an error: the bytes are exactly the encodings (4-byte size, body) of the
+    frames handed to the registry - all accepted, in order - followed by an unfinished frame
+    [buf'] (fewer than 4 bytes, or fewer than its size field announces).  So whatever chunking
+    delivers the first k bytes of a multi-frame stream, the loop has executed the frames that
+    lie wholly inside them and stands |buf'| bytes into the next one. *)
+Theorem c15_frames_any_chunking : forall chunks buf' done',
+  Forall bytes_ok chunks ->
+  feed_all [] chunks [] = Some (buf', done') ->
+  exists e, concat chunks = stream e ++ buf' /\ done' = frames_of e /\ Forall good e /\ incomplete buf'.
+Proof. exact frames_any_chunking. Qed.
+Print Assumptions c15_frames_any_chunking.
+
+(** [feed_all] is what the model's EFeed steps compute on the read loop's buffer, and those steps
+    move nothing else *)
+Theorem c15_feed_steps : forall pol g chunks s buf done buf' done',
+  loops s g = LReading buf ->
+  feed_all buf chunks done = Some (buf', done') ->
+  exists s', run Fixed pol s (map (EFeed g) chunks) = Some s'
+    /\ loops s' g = LReading buf' /\ is_open s' = is_open s /\ gen s' = gen s /\ pub s' = pub s
+    /\ (forall i, i <> g -> loops s' i = loops s i).
+Proof. exact feed_all_run. Qed.
+Print Assumptions c15_feed_steps.
+
+(** and the cause a read error then gets depends only on that position: between frames, inside
+    the 4-byte header, inside the body (with c15_failure_detected_and_closed: for every cut
+    offset and every error the transport ends closed with exactly this cause) *)
+Theorem c15_cause_by_cut_position : forall n k, 0 <= n ->
+  classify n k =
+  match k with
+  | EofTte => 0
+  | EofRaw => if n =? 0 then 1 else if n <? 4 then 2 else 0
+  | ErrRaw t => if n <? 4 then 1000 + 10 * t else 1000 + 10 * t + 1
+  | ErrTte t => 1000 + 10 * t + 2
+  | ClosedErr => 5
+  end.
+Proof. exact classify_by_position. Qed.
+Print Assumptions c15_cause_by_cut_position.
 
 (** ** the cause is nil only for Close() or an error classified as end of file *)
 
@@ -223,3 +264,12 @@ Example c15_nonvacuous_waiting :
               [EOpen 1; EReadErr 1 (ErrTte 4); ELoop 1 0; ELoop 1 1; EMonRecv; EMon 2; EMon 2] = Some s
     /\ mon s = MWait 2 3.
 Proof. eexists. split; [vm_compute; reflexivity|]. reflexivity. Qed.
+
+(** three frames (the middle one carries a header block with _opid = 7), cut into chunks of 5 bytes and cut short
+    2 bytes into the third: two frames executed, two bytes of unfinished frame *)
+Example c15_nonvacuous_frames :
+  let f := [0;0;0;0;14;0;0;0;5;95;111;112;105;100;0;0;0;1;55] in
+  let chunks := [[0;0;0;19;0]; [0;0;0;14;0]; [0;0;5;95;111]; [112;105;100;0;0]; [0;1;55;0;0]; [0;19;0;0;0]; [0;14;0;0;0]; [5;95;111;112;105]; [100;0;0;0;1]; [55;0;0]] in
+  exec_ok f = true /\
+  feed_all [] chunks [] = Some ([0;0], [(19, true); (19, true)]).
+Proof. vm_compute. split; reflexivity. Qed.
